@@ -4,7 +4,9 @@
 (* f >> g of two 2x2 tensor boxes whose entries are affine forms (value    *)
 (* c0/8 + cx x + cy y), a chain of substitution steps (each a sequence of  *)
 (* pairs applied in order), the projected entries of the real result, the  *)
-(* free symbols reported before and after.                                 *)
+(* free symbols reported before and after.  With t.bubble = 1 the second   *)
+(* box sits inside a bubble that squares entrywise: its entries are        *)
+(* parameters of the diagram like any other.                               *)
 (***************************************************************************)
 EXTENDS Param, Json, IOUtils
 PhasesQ == {1}
@@ -22,7 +24,7 @@ OutT(t) ==
                 ELSE IF SetOfS(t.fs0) # FSEnts(t.f) \cup FSEnts(t.g) THEN "free-symbols-of-the-diagram-wrong"
                 ELSE IF SetOfS(t.fs1) # FSEnts(wf) \cup FSEnts(wg) THEN "free-symbols-after-substitution-wrong"
                 ELSE "ok" IN
-  [v |-> <<clause>>, closed |-> closed, e |-> IF closed THEN MatThen(M22(wf), M22(wg)).a ELSE <<>>]
+  [v |-> <<clause>>, closed |-> closed, e |-> IF closed THEN MatThen(M22(wf), IF t.bubble = 1 THEN MapT(M22(wg), LAMBDA z : Mul(z, z)) ELSE M22(wg)).a ELSE <<>>]
 Verdicts == LET TR == ndJsonDeserialize(IOEnv.TRACE_FILE) IN [l \in 1..Len(TR) |-> OutT(TR[l])]
 ASSUME ndJsonSerialize(IOEnv.OUT, Verdicts)
 TVInit == PInit
